@@ -4,6 +4,8 @@ Implementations of IInput
 import logging
 from datetime import datetime
 
+import numpy as np
+
 from ..data import tools
 from ..data.tools import Info
 from ..errors import FinamMetaDataError
@@ -139,7 +141,11 @@ class Input(IInput, Loggable):
         # transform compatible data between grids
         if self._transform is not None:
             with ErrorLogger(self.logger):
-                data = self._transform(data)
+                # grid transformations work on data without the leading time axis
+                slices = [self._transform(data[i, ...]) for i in range(data.shape[0])]
+                data = (
+                    slices[0][np.newaxis, ...] if len(slices) == 1 else np.stack(slices)
+                )
             self.logger.profile(
                 "converted data between compatible grids (%d entries)", data.size
             )
